@@ -15,7 +15,13 @@ LEVEL_TEXT = ("Proof over the reals: for every rate array whose active bins have
               "arrays the model says. What the code does for an event in a zero-rate bin (contribution +1, finite) and what the "
               "definition gives (-inf) are both theorems: known finding D17. Tied to the code by numerical correspondence of the "
               "Float instance on array-level calls and on the public tests (observed + every simulated entry, injected numbers) "
-              "and by a direct oracle.")
+              "and by a direct oracle. Wave 4: the whole pipeline of _binary_likelihood_test / _brier_score_test and of the three "
+              "wrappers is in the model (masked Soft64 sampling weights, searchsorted-right placement, add.at, count assertion, "
+              "scores, quantile - composed with the sampler model of C06); proved: a simulated catalog never has an event in a bin "
+              "of rate <= 0, hence EVERY simulated entry equals the definition with no hypothesis on the rates (D17 can only "
+              "concern the observed entry); Brier observed/simulated normalisers; no exception for rows of the right width, the "
+              "count assertion for any other width; sign of the joint log-likelihood. The model now receives only rates, observed "
+              "counts and the uniform numbers and produces the simulated catalogs itself.")
 LEVEL_NOTE = ("Floating-point rounding of exp/log/poisson.cdf is not modelled; comparison to 1e-9 relative plus the rounding "
               "of 1-exp(-rate) itself (2^-51/(1-exp(-rate)) per active bin: the code's subtraction loses up to 8 digits at "
               "rate 1e-9). scipy.stats.poisson.cdf(0, rate) is modelled as exp(-rate). Placement of simulated events is C06.")
@@ -26,7 +32,12 @@ THEOREMS = ["BinaryBrier.binaryLL_eq_def", "BinaryBrier.binaryLL_eq_binaryDef", 
             "BinaryBrier.brier_eq_def_length", "BinaryBrier.depends_only_on_activity", "BinaryBrier.scores_of_indicator",
             "BinaryBrier.binaryLL_zero_rate_event", "BinaryBrier.binaryLL_def_negInf", "BinaryBrier.binaryDef_negInf_iff",
             "BinaryBrier.brier_range", "BinaryBrier.brier_dims_irrelevant", "BinaryBrier.tests_report_def",
-            "BinaryBrier.binaryCell_eq", "BinaryBrier.binarySpatialMap_sum"]
+            "BinaryBrier.binaryCell_eq", "BinaryBrier.binarySpatialMap_sum",
+            # wave 4 (Properties/C16_Tests.lean): the test pipeline with the sampler inside the model
+            "BinaryBrier.sim_entry_active_pos", "BinaryBrier.binary_test_entries_eq_def",
+            "BinaryBrier.binary_test_observed_eq_def", "BinaryBrier.brier_test_entries_eq_def",
+            "BinaryBrier.brier_test_sim_arrays", "BinaryBrier.pipeline_total", "BinaryBrier.pipeline_row_width_assert",
+            "BinaryBrier.pipeline_quantile", "BinaryBrier.wrappers_report_def", "BinaryBrier.binaryLL_nonpos"]
 TRUSTED = ["Lean 4.33 kernel", "axioms: propext, Classical.choice, Quot.sound at most",
            "Real.log / Real.exp stand for numpy.log / numpy.exp; scipy.stats.poisson.cdf(0, r) = exp(-r); rounding not "
            "modelled, Float instance compared numerically on every run",
@@ -47,7 +58,10 @@ RULE = ("array level: 1-D (1..200 bins) and 2-D ((1..40)x(1..8)) rate arrays, ra
         "_binary_likelihood_test / _brier_score_test are called on these arrays too; every score is compared with the "
         "definition to double-precision rounding whatever the dtype. Comparisons switched off because unchanged pyCSEP "
         "itself departs from the definition there are named in AWAITING_DECISION. A case is "
-        "non-trivial when it has an active and an inactive bin and a bin with >= 2 events; distinct by (rate bits, counts).")
+        "non-trivial when it has an active and an inactive bin and a bin with >= 2 events; distinct by (rate bits, counts). "
+        "Wave 4: every test call (array drivers and public tests, except float32/float16 weights) is also replayed by the "
+        "model from (rates, counts, uniform numbers) alone; one call in eight is repeated with rows of n_active +- 1 numbers "
+        "(count assertion); reported quantile checked against the reported entries.")
 
 SIG_D17 = "binary-ll:active-bin-with-nonpositive-rate"
 
@@ -246,6 +260,9 @@ def _check_binary(run, case, what, val, rates, counts, eps=2.0 ** -51, rate_err=
                                      f"bins sum to {rest!r}: not the known masking behaviour")
     elif not _close(val, dv, cond):
         run.oracle_failure(case, f"{what}: value {val!r} != definition {dv!r}")
+    elif val > cond and all(float(r) >= 0.0 for r in rates):
+        # sign (BinaryBrier.binaryLL_nonpos): no active bin with rate <= 0, all rates >= 0  =>  score <= 0
+        run.oracle_failure(case, f"{what}: positive joint log-likelihood {val!r}")
     return cond
 
 
@@ -391,7 +408,10 @@ def _array_drivers(run, drv, pending, case, spec, rates, counts, vals, fc, rdt):
         run.count(f"call-{fn.__name__}")
         _score_entries(run, drv, pending, case, mode, fn.__name__, vals.reshape(shape if len(shape) == 2 else (-1, 1)),
                        numpy.array(fc).reshape(shape if len(shape) == 2 else (-1, 1)), rn, float(obs),
-                       [float(x) for x in td], rdt)
+                       [float(x) for x in td], rdt, qs=qs, dims=list(shape))
+        if spec["rn_seed"] % 8 == 0:
+            _wrong_width(run, drv, pending, case, mode, fn, (rates, counts), n_active, nsim, g, vals.ravel(), fc,
+                         list(shape))
 
 
 LAYOUT_SHARE = 0.5
@@ -535,7 +555,17 @@ def _sim_counts(rates1d, rn, band=0.0):
     return numpy.bincount(idx, minlength=len(rates1d)).astype(int)
 
 
-def _score_entries(run, drv, pending, case, mode, fname, data, cnt, rn, obs, td, rdt):
+def _frac(x):
+    n, d = float(x).as_integer_ratio()
+    return f"{n}/{d}" if d != 1 else str(n)
+
+
+def _rows_txt(rn):
+    return "R" + ";".join(",".join(_frac(x) for x in row) if len(row) else "-" for row in rn)
+
+
+def _score_entries(run, drv, pending, case, mode, fname, data, cnt, rn, obs, td, rdt, qs=None, rates_exact=None,
+                   dims=None):
     """oracle + model request for the observed and every simulated entry of one test. data: (space, magnitude) float64
     values of the rates under test, cnt: the gridded observation, rn: injected numbers, rdt: dtype of the rate array"""
     nsim = len(rn)
@@ -549,6 +579,12 @@ def _score_entries(run, drv, pending, case, mode, fname, data, cnt, rn, obs, td,
     if len(td) != nsim:
         run.oracle_failure(case, f"{fname}: test_distribution has {len(td)} entries for {nsim} simulations")
         return
+    if qs is not None and nsim > 0:
+        # the reported quantile is the share of reported simulated entries not above the reported observed one (exact)
+        want = sum(1 for x in td if x <= obs) / nsim
+        if not (float(qs) == want):
+            run.oracle_failure(case, f"{fname}: quantile {float(qs)!r} but {sum(1 for x in td if x <= obs)} of {nsim} "
+                                     f"simulated entries are <= the observed one")
     sims = [_sim_counts(rates1d, rn[k, :], band) for k in range(nsim)]
     entries = [("observed", obs1d, obs)] + [(f"simulated[{k}]", sims[k], td[k]) for k in range(nsim)]
     vals, tols = [], []
@@ -566,6 +602,43 @@ def _score_entries(run, drv, pending, case, mode, fname, data, cnt, rn, obs, td,
     simtxt = ";".join(",".join(str(int(c)) for c in s_) for s_ in sims) if sims else "-"
     i = drv.ask(f"c16_mode {mode} {_rows(data, _bits)} {_rows(cnt, lambda c: str(int(c)))} {simtxt}")
     pending.append((case, mode, [i], vals, tols))
+    # wave 4: the whole test inside the model - only rates, observed counts and the uniform numbers are sent; the model
+    # places the simulated events itself (Soft64 weights of C06) and scores them.  rates_exact: the 1-D rate vector the
+    # implementation works on, bit for bit (the S-test's marginal sums depend on numpy's summation order).
+    # Not sent when the weights are formed in a narrow floating dtype (unit != 0: either placement is allowed there).
+    if unit == 0.0 and nsim > 0:
+        r1 = numpy.asarray(rates1d if rates_exact is None else rates_exact, dtype=float).ravel()
+        if len(r1) == len(obs1d) and numpy.all(numpy.isfinite(r1)):
+            dd = dims or [len(r1)]
+            j = drv.ask(f"c16_pipe {'B' if mode == 'B' else 'L'} {_lst(dd, str)} {_lst(r1, _frac)} {_lst(r1, _bits)} "
+                        f"{_lst(obs1d, lambda c: str(int(c)))} {_rows_txt(rn)}")
+            pending.append((case, "pipe", [j], dict(vals=vals, tols=tols, sims=sims, qs=qs, fname=fname), None))
+            run.count(f"pipeline-{mode}")
+
+
+def _wrong_width(run, drv, pending, case, mode, fn, args, n_active, nsim, g, rates1d, counts1d, dims):
+    """rows of uniform numbers whose width is not the number of active bins: `assert sim_fore.sum() == sim_cells` must
+    fail (AssertionError), in the implementation and in the model (BinaryBrier.pipeline_row_width_assert)"""
+    w = n_active + 1 if (n_active == 0 or g.random() < 0.5) else n_active - 1
+    rn = g.random((max(nsim, 1), w))
+    try:
+        with numpy.errstate(all="ignore"):
+            fn(*args, num_simulations=max(nsim, 1), random_numbers=rn)
+        got = "returned"
+    except Exception:                # which exception is not part of any statement: AssertionError today
+        got = "exception"
+    run.count(f"wrong-width-{mode}")
+    if got != "exception":
+        # the injected numbers are a testing hook and the property is silent about malformed ones: a library that accepts
+        # them is not in violation; counted, and the model (which transcribes the assertion) is not consulted
+        run.count(f"wrong-width-accepted-{mode}")
+        return
+    r1 = numpy.asarray(rates1d, dtype=float).ravel()
+    if len(r1) == len(counts1d) and numpy.all(numpy.isfinite(r1)):
+        dd = dims or [len(r1)]
+        j = drv.ask(f"c16_pipe {'B' if mode == 'B' else 'L'} {_lst(dd, str)} {_lst(r1, _frac)} {_lst(r1, _bits)} "
+                    f"{_lst(counts1d, lambda c: str(int(c)))} {_rows_txt(rn)}")
+        pending.append((dict(case, wrong_width=w), "pipe-exc", [j], got, None))
 
 
 def _test_case(run, drv, pending, spec, tag="test"):
@@ -595,8 +668,16 @@ def _test_case(run, drv, pending, spec, tag="test"):
             run.oracle_failure(case, f"{fn.__name__} raised {type(e).__name__}: {e}")
             continue
         run.count(f"call-{fn.__name__}")
+        rex = None
+        if mode == "S":
+            with numpy.errstate(all="ignore"):
+                rex = numpy.asarray(fore.spatial_counts(), dtype=float)
         _score_entries(run, drv, pending, case, mode, fn.__name__, data, cnt, rn, float(res.observed_statistic),
-                       [float(x) for x in res.test_distribution], rdt)
+                       [float(x) for x in res.test_distribution], rdt, qs=res.quantile, rates_exact=rex,
+                       dims=[ns, nm] if mode == "B" else None)
+        if spec["rn_seed"] % 8 == 0:
+            _wrong_width(run, drv, pending, case, mode, fn, (fore, cat), n_active, nsim, g,
+                         rex if mode == "S" else data.ravel(), [int(c) for c in obs1d], [ns, nm] if mode == "B" else None)
     _cells_check(run, drv, pending, case, fore, cat, data, cnt, rdt)
 
 
@@ -668,9 +749,43 @@ def _underflows(x, dt):
         return bool(dt(1.0) - numpy.exp(-dt(x)) == dt(0.0))
 
 
+def _flush_pipe(run, case, line, exp):
+    """the model ran the whole test from (rates, counts, uniform numbers): entries, simulated catalogs, quantile"""
+    vals, tols, sims, qs = exp["vals"], exp["tols"], exp["sims"], exp["qs"]
+    parts = line.split(" | ")
+    if len(parts) != 3:
+        run.mismatch(dict(case, mode="pipe"), [repr(v) for v in vals], line)
+        return
+    model = [_unbits(t) for t in parts[0].split(" ")]
+    ok = len(model) == len(vals) and all(t is None or _close(v, m, t) for v, m, t in zip(vals, model, tols))
+    marr = [] if parts[2] == "-" else [[int(x) for x in a.split(",")] for a in parts[2].split(";")]
+    harr = [[int(c) for c in s_] for s_ in sims]
+    if not ok or marr != harr:
+        run.mismatch(dict(case, mode="pipe"), dict(entries=[repr(v) for v in vals], simulated=harr),
+                     dict(entries=[repr(m) for m in model], simulated=marr))
+        return
+    for v, m, t in zip(vals, model, tols):
+        if t is not None:
+            _track("model", v, m)
+    if qs is not None and len(vals) > 1:
+        k, n = (int(x) for x in parts[1].split("/"))
+        obs = vals[0]
+        tie = any(t is None or abs(v - obs) <= 1e-9 * max(abs(v), abs(obs)) + 2 * (t + (tols[0] or 0.0)) + 1e-300
+                  for v, t in zip(vals[1:], tols[1:])) or tols[0] is None
+        if not tie and float(qs) != k / n:
+            run.mismatch(dict(case, mode="pipe-quantile"), float(qs), f"{k}/{n}")
+
+
 def _flush(run, drv, pending):
     out = drv.run()
     for case, mode, idx, vals, tols in pending:
+        if mode == "pipe-exc":
+            if out[idx[0]] != vals:
+                run.mismatch(dict(case, mode=mode), vals, out[idx[0]])
+            continue
+        if mode == "pipe":
+            _flush_pipe(run, case, out[idx[0]], vals)
+            continue
         toks = [t for i in idx for t in out[i].replace(",", " ").split(" ")]
         model = [_unbits(t) if t.isdigit() else None for t in toks]
         ok = len(model) == len(vals) and all(t is None or (m is not None and _close(v, m, t))
